@@ -1184,6 +1184,13 @@ def v_sum(it, start=0):
     return builtins.sum(it, start)
 
 
+def _truth(x):
+    """Truth value of an element: an object without __bool__ / __len__ (a node reference) is true."""
+    if isinstance(x, SymObj):
+        return tm.TRUE
+    return B(x)
+
+
 def v_any(it):
     if hasattr(it, "__symany__"):
         return it.__symany__()
@@ -1195,13 +1202,13 @@ def v_any(it):
             c.nofork += 1
             w = c.fresh(c.fresh_name("any.witness"), INT)
             n0 = len(c.pc)
-            tw = B(it.elem(w))
+            tw = _truth(it.elem(w))
             side_w = c.pc[n0:]
             del c.pc[n0:]
             c.pc.append(tm.Implies(b, tm.And(tm.Le(tm.mk_int(0), w), tm.Lt(w, it.length), *side_w, tw)))
             jv = tm.Var(c.fresh_name("j!bound"), INT)
             c.pc.append(tm.Implies(tm.Not(b), quantified(
-                [(jv.s, INT)], lambda: tm.Not(B(it.elem(jv))), guard=tm.And(tm.Le(tm.mk_int(0), jv), tm.Lt(jv, it.length)))))
+                [(jv.s, INT)], lambda: tm.Not(_truth(it.elem(jv))), guard=tm.And(tm.Le(tm.mk_int(0), jv), tm.Lt(jv, it.length)))))
         except sym.Speculation:
             pass  # the element test branches: the truth value stays unconstrained (over-approximation)
         finally:
